@@ -122,13 +122,21 @@ def phase_gen(prop, tier, specdir, scratch):
     return out
 
 
+REPO = os.environ.get("VERIF_REPO", "/repo")  # a scratch worktree can be checked without touching /repo
+
+
 def build_driver(prop, scratch):
-    shutil.copy("/repo/go.sum", os.path.join(HARNESS, "go.sum"))
+    # a per-run modfile points the harness at the tree under test (always rebuilt from its working tree)
+    gomod = open(os.path.join(HARNESS, "go.mod")).read().replace("=> /repo", "=> " + REPO)
+    modfile = os.path.join(scratch, "go.mod")
+    with open(modfile, "w") as f:
+        f.write(gomod)
+    shutil.copy(os.path.join(REPO, "go.sum"), os.path.join(scratch, "go.sum"))
     exe = os.path.join(scratch, "drive")
-    cmd = ["go", "build", "-tags", "verif"]
+    cmd = ["go", "build", "-modfile", modfile, "-tags", "verif"]
     if prop.get("race"):
         cmd.append("-race")
-    cmd += ["-o", exe, "./cmd/drive"]
+    cmd += ["-o", exe, "./cmd/" + prop["driver"]]
     e = dict(os.environ)
     e.update(GOENV)
     t0 = time.time()
@@ -345,7 +353,7 @@ def run(pid, tier, seed, replay=None, keep=False, skip_mc=False):
             print(f"VIOLATION property={pid} replay={os.path.relpath(p, VERIF)}")
         if violations and not paths:
             print(f"VIOLATION property={pid} replay=")
-        if not replay:
+        if not replay and REPO == "/repo":
             samples = st.get("samples") or []
             # keep evidence small
             samples = [json.loads(json.dumps(s)[:4000]) if len(json.dumps(s)) <= 4000 else {"truncated": json.dumps(s)[:1500]} for s in samples[:4]]
